@@ -101,7 +101,7 @@ example : nlsfDecode cbNbMb [7, 10, -10, 10, -10, 0, 0, 4, -4, 10, 10] =
     at least `SILK_FIX_CONST(1/MAX_PREDICTION_POWER_GAIN, 30) = 107374` (bounded gain).
 
     CAVEAT (scope of "EVERY vector").  This is a statement about the MODEL `nlsf2a`, which computes
-    `a32_QA1[k] = -/+Qtmp - Ptmp` (NLSF2A.c:125-126) in unbounded integers.  The model equals the C
+    `a32_QA1[k] = ∓Qtmp − Ptmp` (NLSF2A.c:125-126) in unbounded integers.  The model equals the C
     code only on inputs where that subtraction fits `opus_int32`:
       * order 10: always (`nlsf2a_nowrap_d10`) — the statement transfers to the C function as is;
       * order 16: only where `a32_QA1` fits 32 bits (hypothesis `hA` of `nlsf2a_nowrap_d16_partial`).
